@@ -215,9 +215,9 @@ class Obligation:
     rehyp: Any = None                # callable(extra_terms) -> hypotheses re-instantiated at more terms (small counter-models)
     len_vars: list = field(default_factory=list)   # z3 Int length variables of list / table inputs
 
-    def formula_for_check(self):
+    def formula_for_check(self, relevance=True):
         hy = list(self.hyps)
-        if self.expect == 'valid' and not involves_strings(self.goal):
+        if relevance and self.expect == 'valid' and not has_string_terms(self.goal):
             hy = [p for h in hy for p in split_conj(h)]
             # relevance filter (sound: dropping hypotheses only weakens what can be proved): a goal without string
             # terms is proved from the string-free hypotheses, which keeps the query out of the string solver
@@ -242,8 +242,30 @@ def split_conj(h, depth=0):
     return [h]
 
 
+def has_string_terms(f) -> bool:
+    """does the formula contain any term of string / regex sort (the test applied to *goals*: a goal that mentions strings at
+    all keeps every hypothesis)"""
+    if isinstance(f, bool):
+        return False
+    seen = set()
+    stack = [f]
+    while stack:
+        e = stack.pop()
+        i = e.get_id()
+        if i in seen:
+            continue
+        seen.add(i)
+        if e.sort().kind() in (z3.Z3_SEQ_SORT, z3.Z3_RE_SORT):
+            return True
+        if z3.is_app(e):
+            stack.extend(e.children())
+        elif z3.is_quantifier(e):
+            stack.append(e.body())
+    return False
+
+
 def involves_strings(f) -> bool:
-    """does the formula contain a term of string / regex sort?  (DAG traversal; no caching across calls, because z3
+    """does the formula contain a heavy string operation?  (DAG traversal; no caching across calls, because z3
     AST ids are recycled after garbage collection)"""
     if isinstance(f, bool):
         return False
@@ -261,7 +283,14 @@ def involves_strings(f) -> bool:
 _str_cache = {}
 
 
+_HEAVY_STR_OPS = {z3.Z3_OP_SEQ_CONCAT, z3.Z3_OP_SEQ_LENGTH, z3.Z3_OP_SEQ_IN_RE, z3.Z3_OP_INT_TO_STR, z3.Z3_OP_STR_TO_INT,
+                  z3.Z3_OP_SEQ_AT, z3.Z3_OP_SEQ_EXTRACT, z3.Z3_OP_SEQ_REPLACE, z3.Z3_OP_SEQ_PREFIX, z3.Z3_OP_SEQ_SUFFIX,
+                  z3.Z3_OP_SEQ_CONTAINS, z3.Z3_OP_SEQ_INDEX}
+
+
 def _involves_strings(f) -> bool:
+    """string *operations* (concatenation, length, regex, int<->str ...); plain equalities between string constants, array
+    cells and uninterpreted applications are cheap and do not count"""
     seen = set()
     stack = [f]
     while stack:
@@ -271,7 +300,9 @@ def _involves_strings(f) -> bool:
             continue
         seen.add(i)
         k = e.sort().kind()
-        if k == z3.Z3_SEQ_SORT or k == z3.Z3_RE_SORT:
+        if k == z3.Z3_RE_SORT:
+            return True
+        if z3.is_app(e) and e.decl().kind() in _HEAVY_STR_OPS:
             return True
         if z3.is_app(e):
             stack.extend(e.children())
@@ -373,6 +404,24 @@ def discharge(ob: Obligation, timeout_ms: int = 10000, use_cli: bool = True) -> 
             res, backend2 = _cli_check(s.to_smt2(), max(5.0, timeout_ms / 1000.0))
             if res != 'unknown':
                 backend = backend2
+    if res == 'sat' and ob.expect == 'valid':
+        full = ob.formula_for_check(relevance=False)
+        if len(full) != size:
+            # the counter-model was found with hypotheses dropped by the relevance filter: it proves nothing.  Decide the
+            # complete query; only a model of *all* hypotheses is a refutation
+            s = z3.Solver()
+            s.set('timeout', timeout_ms)
+            for f in full:
+                s.add(f)
+            size = len(full)
+            r = s.check()
+            res, backend = str(r), 'z3'
+            if r == z3.unknown:
+                reason = 'counter-model only under the relevance filter; complete query: ' + s.reason_unknown()
+                if use_cli:
+                    res, backend2 = _cli_check(s.to_smt2(), max(5.0, timeout_ms / 1000.0))
+                    if res != 'unknown':
+                        backend = backend2
     dt = time.time() - t0
     model = None
     if res == 'sat' and r == z3.sat:
